@@ -274,7 +274,13 @@ func (e *env) judgeAll(c *mon.Case, cd cand) {
 	{
 		var err error
 		var k *ecdh.PublicKey
-		if c.Call("ecdh.NewPublicKey", func() { k, err = ecdh.P256().NewPublicKey(b) }) {
+		// the key object owns its encoding: it is built from a private copy that is overwritten before Bytes() is read
+		in := append([]byte{}, b...)
+		okc := c.Call("ecdh.NewPublicKey", func() { k, err = ecdh.P256().NewPublicKey(in) })
+		for i := range in {
+			in[i] = 0xA5
+		}
+		if okc {
 			if verdict("ecdh.NewPublicKey", "unc", err == nil) {
 				c.Eq("ecdh PublicKey.Bytes()", k.Bytes(), b)
 			}
